@@ -31,9 +31,15 @@ def _apply_renames(rng, root, files, dirs, n, tag):
     classes = set()
     taken = set(files)
     for old in rng.sample(files, min(len(files), n)):
-        k = rng.choice(["inplace", "inplace", "move", "newdir"])
+        k = rng.choice(["inplace", "inplace", "move", "newdir", "caseonly"])
         base = os.path.basename(old)
-        if k == "inplace":
+        if k == "caseonly":
+            # the new name differs from the recorded one only in upper / lower case (A001C003.MOV -> a001c003.mov)
+            nb = base.swapcase() if base.swapcase() != base else base + "X"
+            new = os.path.join(os.path.dirname(old), nb)
+            if nb.lower() != base.lower():
+                k = "inplace"
+        elif k == "inplace":
             new = os.path.join(os.path.dirname(old), tag + world.gen_name(rng, rng.choice(["plain", "space", "uni"])))
         elif k == "move" and dirs:
             dst = rng.choice([""] + dirs)
